@@ -3,7 +3,7 @@ import CoapVerif.Model.Replay
 C15 — Appendix B.2 (context re-derivation with an ID Context exchange), CLIENT side of the response path of
 `coap_oscore_decrypt_pdu` (src/coap_oscore.c, `if (session->b_2_step != COAP_OSCORE_B_2_NONE)` in the response branch,
 `oscore_unwrap_kid_context`, `oscore_cbor_get_element_size`, the error exits), one security context.  Transcribed from the
-tree after the R15c fix 74ce665 (the Appendix B.2 state is put back when the response does not verify).
+tree after the R15c fix 6ebee56 (the Appendix B.2 state is put back when the response does not verify).
 
 The Sender Key, Recipient Key and Common IV are functions of the ID Context (`oscore_update_ctx` re-derives all three
 from `osc_ctx->id_context`), so the state is `b_2_step` and the ID Context.  Covered: responses that do NOT verify
@@ -85,7 +85,7 @@ def run : B2 → List (Option (List Nat)) → List (Verdict × B2)
 `coap_oscore_decrypt_pdu`, request branch, from `oscore_find_context(…, &cose->kid_context, NULL, …)` to the error exits,
 for requests that do NOT verify; the kid of the request is the recipient id of every security context of the
 `coap_context_t` (the setting of the op `b2s`), all contexts have `rfc8613_b_2` set and `OSCORE_MODE_SINGLE`.
-Transcribed from the tree after fix 28543ff. -/
+Transcribed from the tree after fix 9442af8. -/
 
 /-- `session->b_2_step`, `session->oscore_r2` (`none` = 0) and the ID Context (`none` = NULL) of every security context
 in chain order. -/
